@@ -202,6 +202,35 @@ theorem layout_128 (fx : Fixes) (s : Machine) (hs : WF128 s)
   simp only [List.append_assoc]
   rfl
 
+/-- **C13, layout of the 48K file**: the header with SP already decremented, then RAM
+0x4000–0xFFFF with PC pushed below SP — the writer's output is the file the layout prescribes. -/
+theorem layout_48 (fx : Fixes) (s : Machine) (hs : WF48 s)
+    (hh : saveHAlt fx s.cpu = s.cpu.h') (hl : saveLAlt fx s.cpu = s.cpu.l') :
+    snaSave fx s = Spec.snaOf (Spec.abs s) := by
+  have hk : (Spec.abs s).model = .k48 := hs.kind
+  have hpages := abs_pushPc_pages s hs.kind
+  have ecpu : s.pushPc.cpu = { s.cpu with sp := s.cpu.sp - 2 } := by
+    show { ((s.write _ _).write _ _).cpu with sp := s.cpu.sp - 2 } = _
+    rw [write_cpu, write_cpu]
+  have ebd : s.pushPc.border = s.border := by
+    show ((s.write _ _).write _ _).border = _
+    rw [write_border, write_border]
+  have hkp : s.pushPc.kind = .k48 := hs.pushPc.kind
+  unfold snaSave Spec.snaOf
+  rw [hs.kind, hk]
+  show snaSave48 fx s = Spec.sna48 (Spec.abs s)
+  unfold snaSave48 Spec.sna48 Machine.entered48
+  have hhdr : snaHeader fx s.pushPc = Spec.snaHeader (Spec.abs s).regs ((Spec.abs s).regs.sp - 2) (Spec.abs s).border := by
+    rw [layout_header fx s.pushPc (by rw [ecpu]; exact hh) (by rw [ecpu]; exact hl), ecpu, ebd]
+    rfl
+  simp only []
+  rw [hhdr, ← hpages]
+  simp only [List.append_assoc]
+  have hp : ∀ n, (Spec.abs s.pushPc).page n = s.pushPc.ram (Spec.absPage .k48 n) := by
+    intro n; simp [Spec.abs, hkp]
+  rw [hp 5, hp 2, hp 0]
+  rfl
+
 /-- The defect made visible in the layout: the code as it is writes HL where HL' belongs. -/
 theorem layout_header_code_writes_hl (s : Machine) :
     (snaHeader Fixes.none s).getD 1 0 = s.cpu.l ∧ (snaHeader Fixes.none s).getD 2 0 = s.cpu.h := ⟨rfl, rfl⟩
